@@ -2,9 +2,9 @@ package main
 
 import (
 	"fmt"
-	"path/filepath"
 	"go/token"
 	"go/types"
+	"path/filepath"
 	"sort"
 	"strings"
 
@@ -111,7 +111,6 @@ func specLemmaObligations(r *Runner) []*LedgerEntry {
 	return out
 }
 
-
 type lemmaCase struct {
 	name string
 	hyps []*Term
@@ -122,11 +121,12 @@ type lemmaCase struct {
 // object frames on its stack (cnt, defined by recursion over the stack height), hence the
 // consequences used by the fast machine's simulation (Exec.countLemma). Everything is proved by
 // induction with explicit instances of cnt's defining equation:
-//   frame-*  : cnt(K, store(f,d,x), j) == cnt(K, f, j) for 0 <= j <= d          (induction on j)
-//   bound-*  : 0 <= cnt(K,f,j) <= j, and >= 1 when j >= 1 and f[0] == K           (induction on j)
-//   inv-*    : q(k) == Dead or (0 <= depth(k) <= limit and na(k) == cnt(Arr, frame(k), depth(k))
-//              and no(k) == cnt(Obj, ...))                                       (induction on k)
-//   final    : inv(k) and bound(depth(k)) imply countLemma(k)
+//
+//	frame-*  : cnt(K, store(f,d,x), j) == cnt(K, f, j) for 0 <= j <= d          (induction on j)
+//	bound-*  : 0 <= cnt(K,f,j) <= j, and >= 1 when j >= 1 and f[0] == K           (induction on j)
+//	inv-*    : q(k) == Dead or (0 <= depth(k) <= limit and na(k) == cnt(Arr, frame(k), depth(k))
+//	           and no(k) == cnt(Obj, ...))                                       (induction on k)
+//	final    : inv(k) and bound(depth(k)) imply countLemma(k)
 func countLemmaCases(r *Runner, arr *Term) []lemmaCase {
 	tab := specTab()
 	ex := &Exec{eng: r.eng, simVariant: "value", simLimit: 10000, simFast: true}
@@ -313,13 +313,14 @@ func globalStoreScan(eng *Engine) []*LedgerEntry {
 // no discharged contract covers. Each runs the property's replay oracle over its whole search space
 // (enumeration over an alphabet up to a length, a corpus of structured documents, their truncations
 // and single-byte mutations, family-specific seeds) against the real code.
-//   C06: decoded content of string tokens vs the RFC 8259 decoding (rjvSpecDecodeString, itself
-//        compared with encoding/json on 1.1M contents in go test);
-//   C04: ReadFloat64 vs strconv.ParseFloat bit for bit on boundary literals and 3M pseudo-random ones
-//        (stands in for the unchecked argument that the decision structure rounds correctly);
-//   C19: zero heap allocations (testing.AllocsPerRun) of the scalar readers and of SkipValue /
-//        SkipValueFast / Valid / HandleArrayValues / HandleObjectValues with a warmed Buffer and
-//        ReadStringBytes / UnescapeStringContent with spare capacity.
+//
+//	C06: decoded content of string tokens vs the RFC 8259 decoding (rjvSpecDecodeString, itself
+//	     compared with encoding/json on 1.1M contents in go test);
+//	C04: ReadFloat64 vs strconv.ParseFloat bit for bit on boundary literals and 3M pseudo-random ones
+//	     (stands in for the unchecked argument that the decision structure rounds correctly);
+//	C19: zero heap allocations (testing.AllocsPerRun) of the scalar readers and of SkipValue /
+//	     SkipValueFast / Valid / HandleArrayValues / HandleObjectValues with a warmed Buffer and
+//	     ReadStringBytes / UnescapeStringContent with spare capacity.
 func boundedStandIn(r *Runner, prop, fn, what string, alpha []byte) []*LedgerEntry {
 	return boundedStandInKind(r, prop, fn, what, alpha, "bounded")
 }
